@@ -19,6 +19,7 @@ import (
 	"go/constant"
 	"go/token"
 	"go/types"
+	"os"
 	"sort"
 	"strings"
 
@@ -38,8 +39,8 @@ type Ctx struct {
 	// Callees resolves dynamic calls (call graph); nil = unknown callee.
 	Callees func(site ssa.CallInstruction) []*ssa.Function
 	sums    map[*ssa.Function]*wset
-	busy   map[*ssa.Function]bool
-	fns    map[*ssa.Function]*Fn
+	busy    map[*ssa.Function]bool
+	fns     map[*ssa.Function]*Fn
 }
 
 // wset is a may-write set of location classes; all = everything.
@@ -348,6 +349,8 @@ func loadKey(c *Ctx, u *ssa.UnOp) string {
 	return c.addrKey(u.X)
 }
 
+var debugJoin = os.Getenv("WTF_DEBUG_JOIN")
+
 func (f *Fn) solve() {
 	n := len(f.fn.Blocks)
 	f.in = make([]map[string]string, n)
@@ -374,43 +377,42 @@ func (f *Fn) solve() {
 					f.ver[ins] = get(st, elemKey(x.X.Type()))
 				}
 			}
-			w := f.c.instrWrites(ins)
-			id := fmt.Sprintf("i%d.%d", b.Index, i)
-			if w.all {
-				ns := map[string]string{"*": id}
-				for k, v := range st {
-					if strings.HasPrefix(k, "L:") {
-						ns[k] = v
-					}
-				}
-				st = ns
-				continue
-			}
-			for k := range w.keys {
-				st[k] = id
-				if strings.HasPrefix(k, "L:") {
-					// children of the written location and its enclosing cells change too
-					for k2 := range st {
-						if strings.HasPrefix(k2, k+".") {
-							st[k2] = id
-						}
-					}
-					for p := k; ; {
-						i := strings.LastIndex(p, ".")
-						if i < 0 || !strings.Contains(p[:i], ".") {
-							break
-						}
-						p = p[:i]
-						st[p] = id
-					}
-				}
-			}
+			st = f.step(st, b, i, ins)
 		}
 		return st
 	}
+	// reverse postorder: when a block is first visited every forward
+	// predecessor has a state, so no join name is invented for a state that
+	// merely was not computed yet (join names are sticky)
+	var rpo []*ssa.BasicBlock
+	{
+		seen := make([]bool, n)
+		var post []*ssa.BasicBlock
+		var dfs func(b *ssa.BasicBlock)
+		dfs = func(b *ssa.BasicBlock) {
+			seen[b.Index] = true
+			for _, sc := range b.Succs {
+				if !seen[sc.Index] {
+					dfs(sc)
+				}
+			}
+			post = append(post, b)
+		}
+		if n > 0 {
+			dfs(f.fn.Blocks[0])
+		}
+		for i := len(post) - 1; i >= 0; i-- {
+			rpo = append(rpo, post[i])
+		}
+		for _, b := range f.fn.Blocks {
+			if !seen[b.Index] {
+				rpo = append(rpo, b) // unreachable (e.g. recover blocks)
+			}
+		}
+	}
 	for iter := 0; iter < 50; iter++ {
 		changed := false
-		for _, b := range f.fn.Blocks {
+		for _, b := range rpo {
 			var st map[string]string
 			if b.Index == 0 {
 				st = map[string]string{}
@@ -439,6 +441,13 @@ func (f *Fn) solve() {
 						st[k] = v0
 					} else {
 						st[k] = fmt.Sprintf("b%d", b.Index)
+						if debugJoin != "" && strings.HasSuffix(k, debugJoin) {
+							fmt.Printf("JOIN %s at b%d iter %d:", k, b.Index, iter)
+							for _, p := range ps {
+								fmt.Printf(" %s", get(p, k))
+							}
+							fmt.Println()
+						}
 					}
 				}
 			}
@@ -458,6 +467,69 @@ func (f *Fn) solve() {
 		transfer(b, f.in[b.Index], true)
 	}
 	f.out = out
+}
+
+// step applies the memory effect of instruction #i of block b to state st
+// (st may be replaced when an unknown write resets it).
+func (f *Fn) step(st map[string]string, b *ssa.BasicBlock, i int, ins ssa.Instruction) map[string]string {
+	w := f.c.instrWrites(ins)
+	id := fmt.Sprintf("i%d.%d", b.Index, i)
+	if w.all {
+		ns := map[string]string{"*": id}
+		for k, v := range st {
+			if strings.HasPrefix(k, "L:") {
+				ns[k] = v
+			}
+		}
+		return ns
+	}
+	// a field store names its enclosing cells among the written keys: their
+	// versions change, their other fields do not
+	primary := ""
+	if sto, ok := ins.(*ssa.Store); ok {
+		if _, isField := sto.Addr.(*ssa.FieldAddr); isField {
+			primary = f.c.addrKey(sto.Addr)
+		}
+	}
+	for k := range w.keys {
+		st[k] = id
+		if strings.HasPrefix(k, "L:") {
+			// children of the written location and its enclosing cells change too
+			if primary == "" || k == primary {
+				for k2 := range st {
+					if strings.HasPrefix(k2, k+".") {
+						st[k2] = id
+					}
+				}
+			}
+			for p := k; ; {
+				i := strings.LastIndex(p, ".")
+				if i < 0 || !strings.Contains(p[:i], ".") {
+					break
+				}
+				p = p[:i]
+				st[p] = id
+			}
+		}
+	}
+	return st
+}
+
+// VersionBefore is the version of location class key just before instruction
+// ins executes.
+func (f *Fn) VersionBefore(ins ssa.Instruction, key string) string {
+	b := ins.Block()
+	st := map[string]string{}
+	for k, v := range f.in[b.Index] {
+		st[k] = v
+	}
+	for i, x := range b.Instrs {
+		if x == ins {
+			break
+		}
+		st = f.step(st, b, i, x)
+	}
+	return stateGet(st, key)
 }
 
 func stateGet(m map[string]string, k string) string {
@@ -482,6 +554,23 @@ func stateGet(m map[string]string, k string) string {
 		return v
 	}
 	return "0"
+}
+
+// DebugState renders the entry and exit states of block b (debug aid).
+func (f *Fn) DebugState(b *ssa.BasicBlock) string {
+	r := func(m map[string]string) string {
+		var ks []string
+		for k := range m {
+			ks = append(ks, k)
+		}
+		sort.Strings(ks)
+		var sb strings.Builder
+		for _, k := range ks {
+			sb.WriteString(" " + k[strings.LastIndex(k, ")")+1:] + "=" + m[k])
+		}
+		return sb.String()
+	}
+	return "in:" + r(f.in[b.Index]) + " | out:" + r(f.out[b.Index])
 }
 
 // OutVersion is the version of location class key at the end of block b.
@@ -1015,6 +1104,16 @@ func localKey(addr ssa.Value) string {
 		}
 	}
 	return ""
+}
+
+// CellField names field path of the non-escaping local struct cell al: the
+// location class key and the unversioned location rendering ("" if the cell
+// escapes).
+func CellField(al *ssa.Alloc, path string) (key, loc string) {
+	if !nonEscaping(al) {
+		return "", ""
+	}
+	return "L:" + al.Parent().String() + "." + al.Name() + "." + path, allocName(al) + "." + path
 }
 
 // ReachingStores enumerates the values written by the stores that can reach
